@@ -627,6 +627,246 @@ def solver_reuse_part(ctx, rng):
     ctx.sample({"reuse_spec": specs[-1], "history": todo[-1][0], "probe": todo[-1][1]})
 
 
+# ------------- interleaved start / step(args) / run(args) / options / e_ops
+def il_exec(spec, solver, ops):
+    """Execute a history on one solver object; returns the answer of the last
+    op (list of matrices)."""
+    from qutip import num
+    out = None
+    for op in ops:
+        kw = {"args": {"w": op[-1]}} if op[-1] is not None else {}
+        if op[0] == "start":
+            solver.start(mk_state(spec, op[1]), op[2] / 8.0)
+            out = None
+        elif op[0] == "step":
+            out = [solver.step(op[1] / 8.0, **kw).full()]
+        elif op[0] == "run":
+            tl = tl_of(op[2])
+            e_ops = [num(spec["n"])] * op[3] if op[3] else None
+            r = solver.run(mk_state(spec, op[1]), tl, e_ops=e_ops, **kw)
+            out = ([np.array(r.expect)] if op[3] else []) + \
+                  [x.full() for x in (r.states or [])]
+        elif op[0] == "opt":
+            old = solver.options[op[1]]
+            solver.options[op[1]] = op[2]
+            solver.options[op[1]] = old
+    return out
+
+
+def il_reference_suffix(ops, w0=1):
+    """The part of the history that determines the last answer (from the last
+    start / run on), and the arguments in force when it begins."""
+    w, j, wj = w0, 0, w0
+    for i, op in enumerate(ops):
+        if op[0] in ("start", "run"):
+            j, wj = i, w
+        if op[0] in ("step", "run") and op[-1] is not None:
+            w = op[-1]
+    return ops[j:], wj
+
+
+def gen_il_history(rng):
+    def st():
+        return rng.choice([("ket", rng.randint(0, 4)), ("sup", rng.randint(0, 4), rng.randint(0, 4))])
+
+    def w():
+        return rng.choice([None, None, 1, 2, 3])
+    ops, t, started = [], 0, False
+    for _ in range(rng.choice([3, 4, 6, 8])):
+        r = rng.random()
+        if r < 0.2 or not started:
+            if rng.random() < 0.5:
+                t = rng.randint(-4, 4)
+                ops.append(("start", st(), t, None))
+            else:
+                a, d, c = rng.randint(-4, 4), rng.choice([1, 2]), rng.randint(2, 4)
+                ops.append(("run", st(), (a, d, c), rng.choice([0, 0, 1, 2]), w()))
+                t = a + d * (c - 1)
+            started = True
+        elif r < 0.75:
+            t += rng.choice([1, 2, 4])
+            ops.append(("step", t, w()))
+        elif r < 0.9:
+            a, d, c = rng.randint(-4, 4), rng.choice([1, 2]), rng.randint(2, 4)
+            ops.append(("run", st(), (a, d, c), rng.choice([0, 0, 1, 2]), w()))
+            t = a + d * (c - 1)
+        else:
+            ops.append(("opt", "atol", rng.choice([1e-10, 1e-6]), None))
+    if ops[-1][0] in ("opt", "start"):
+        t += 2
+        ops.append(("step", t, w()))
+    return ops
+
+
+IL_FIXED = [
+    # start; step(args=A); run(args=B); step(args=A) continuing from the run
+    [("start", ("ket", 0), 0, None), ("step", 2, 2), ("run", ("ket", 1), (0, 2, 3), 0, 3),
+     ("step", 6, 2)],
+    [("run", ("ket", 0), (0, 2, 3), 0, 2), ("step", 6, 3), ("step", 8, 3), ("step", 10, 2)],
+    [("start", ("sup", 1, 2), 0, None), ("step", 2, 2), ("start", ("ket", 1), 0, None),
+     ("step", 2, 2)],
+    [("run", ("ket", 0), (0, 2, 3), 1, 2), ("run", ("ket", 1), (0, 2, 3), 2, None), ("step", 6, 2)],
+]
+
+
+def interleave_part(ctx, rng):
+    """One solver object used through interleaved start / step(t, args) /
+    run(..., args, e_ops) / option changes; the last answer must be the one a
+    new solver gives for the part of the history that determines it."""
+    specs = []
+    for kind, methods in (("se", SE_METHODS), ("me", ME_METHODS)):
+        for m in methods:
+            if m in ("diag", "krylov"):
+                continue
+            specs.append({"kind": kind, "method": m, "td": True, "n": 3, "hseed": 1})
+    nrand = 3 if ctx.quick else 20
+    stats = {"cases": 0, "identical": 0, "skipped": 0, "violations": 0}
+    for spec in specs:
+        hists = [list(h) for h in IL_FIXED] + [gen_il_history(rng) for _ in range(nrand)]
+        for ops in hists:
+            stats["cases"] += 1
+            ctx.count_case(("interleave", json.dumps([spec, ops], default=str)), nontrivial=True)
+            suffix, wj = il_reference_suffix(ops)
+            try:
+                ref = il_exec(spec, mk_solver(spec, w=wj), suffix)
+            except Exception:
+                stats["skipped"] += 1
+                continue
+            try:
+                got = il_exec(spec, mk_solver(spec, w=1), ops)
+            except Exception as e:
+                stats["violations"] += 1
+                ctx.violation("solver-history:" + spec["method"],
+                              "interleaved|raises:" + type(e).__name__,
+                              "interleaved start/step/run history raises %s on %s/%s although a "
+                              "new solver answers its last part" % (
+                                  type(e).__name__, spec["kind"], spec["method"]),
+                              {"kind": "interleave", "spec": spec, "ops": ops})
+                continue
+            bit, worst = same_states(got, ref)
+            if bit:
+                stats["identical"] += 1
+                continue
+            stats["violations"] += 1
+            sev = "beyond-tolerance" if worst > 1e-5 else "bitwise-only"
+            last = ops[-1][0] + ("-args" if ops[-1][-1] is not None else "")
+            ctx.violation("solver-history:" + spec["method"], "interleaved|%s|%s" % (last, sev),
+                          "%s/%s solver: the answer of the last call of an interleaved "
+                          "start/step(args)/run(args) history differs by %.3g from a new solver "
+                          "given the same arguments: %s" % (
+                              spec["kind"], spec["method"], worst,
+                              [(o[0], o[-1]) for o in ops]),
+                          {"kind": "interleave", "spec": spec, "ops": ops})
+    ctx.cov["interleaved_histories"] = stats
+    ctx.sample({"interleaved_history": [list(map(str, o)) for o in IL_FIXED[0]]})
+
+
+# ------------------------------ assignment of whole option dictionaries
+SITE_OPT = "solver_base.Solver.options:setter"
+OPT_METHODS = ["adams", "bdf", "dop853", "lsoda", "vern7", "vern9"]
+
+
+def opt_effective(eff, d):
+    """Documented meaning of `solver.options = d`: keys given replace the
+    current ones; when the method changes, the old integrator's options are
+    dropped and the new integrator starts from its defaults plus d."""
+    m_new = d.get("method", eff["method"])
+    if m_new != eff["method"]:
+        return dict({"method": m_new}, **{k: v for k, v in d.items() if k != "method"})
+    out = dict(eff)
+    out.update(d)
+    return out
+
+
+def run_options_case(case):
+    """returns None or (signature, what)"""
+    spec = {"kind": case["kind"], "method": case["init"]["method"], "td": case["td"],
+            "n": 3, "hseed": 1, "options": {k: v for k, v in case["init"].items() if k != "method"}}
+    solver = mk_solver(spec)
+    eff = dict(case["init"])
+    psi, tl = mk_state(spec, ("sup", 1, 2)), tl_of((0, 2, 4))
+    for d, run_between in case["assign"]:
+        solver.options = dict(d)
+        eff = opt_effective(eff, d)
+        if run_between:
+            solver.run(mk_state(spec, ("ket", 0)), tl_of((0, 1, 3)))
+    wrong = [(k, solver.options[k], v) for k, v in eff.items() if solver.options[k] != v]
+    fspec = dict(spec, method=eff["method"], options={k: v for k, v in eff.items() if k != "method"})
+    ref = [x.full() for x in mk_solver(fspec).run(psi, tl).states]
+    got = [x.full() for x in solver.run(psi, tl).states]
+    bit, worst = same_states(got, ref)
+    if not wrong and bit:
+        return None
+    changed = any("method" in d and d["method"] != case["init"]["method"] for d, _ in case["assign"])
+    equal_old = False
+    cur = dict(case["init"])
+    for d, _ in case["assign"]:
+        if d.get("method", cur["method"]) != cur["method"] and \
+                any(k != "method" and cur.get(k) == v for k, v in d.items()):
+            equal_old = True
+        cur = opt_effective(cur, d)
+    if wrong and changed and equal_old and all(
+            solver.options[k] != v and k != "method" for k, _, v in wrong):
+        sig = "method-change-drops-options-equal-to-old-values"
+    else:
+        sig = "options-dict|%s|%s" % ("wrong-values" if wrong else "values-ok",
+                                      "bitwise" if bit else "result-differs")
+    return (sig, "after assigning %s to a %s/%s solver built with %s the options are %s "
+                 "(expected %s) and the run differs from a new solver by %.3g" % (
+                     [d for d, _ in case["assign"]], case["kind"], case["init"]["method"],
+                     case["init"], {k: g for k, g, _ in wrong}, {k: v for k, _, v in wrong}, worst))
+
+
+def gen_options_case(rng):
+    vals = {"atol": [1e-10, 1e-9, 1e-8], "rtol": [1e-8, 1e-6], "nsteps": [2500, 5000, 1000]}
+    init = {"method": rng.choice(OPT_METHODS)}
+    for k in rng.sample(sorted(vals), rng.randint(0, 2)):
+        init[k] = rng.choice(vals[k])
+    assign, cur = [], dict(init)
+    for _ in range(rng.choice([1, 1, 2, 3])):
+        d = {}
+        if rng.random() < 0.6:
+            d["method"] = rng.choice(OPT_METHODS)
+        for k in rng.sample(sorted(vals), rng.randint(0, 2)):
+            # equal to the current value half of the time
+            d[k] = cur[k] if (k in cur and rng.random() < 0.5) else rng.choice(vals[k])
+        if not d:
+            d["atol"] = rng.choice(vals["atol"])
+        assign.append((d, rng.random() < 0.3))
+        cur = opt_effective(cur, d)
+    return {"kind": rng.choice(["se", "me"]), "td": rng.random() < 0.5, "init": init,
+            "assign": assign}
+
+
+def options_assign_part(ctx, rng):
+    cases = [
+        {"kind": "se", "td": False, "init": {"method": "adams", "atol": 1e-10},
+         "assign": [({"method": "vern7", "atol": 1e-10}, False)]},
+        {"kind": "me", "td": True, "init": {"method": "bdf", "nsteps": 5000},
+         "assign": [({"method": "dop853", "nsteps": 5000, "atol": 1e-9}, True)]},
+        {"kind": "se", "td": False, "init": {"method": "adams", "atol": 1e-10},
+         "assign": [({"atol": 1e-10, "rtol": 1e-8}, False), ({"method": "adams"}, False)]},
+    ]
+    n = 24 if ctx.quick else 240
+    while len(cases) < n:
+        cases.append(gen_options_case(rng))
+    stats = {"cases": 0, "ok": 0, "violations": 0}
+    for c in cases:
+        stats["cases"] += 1
+        ctx.count_case(("optdict", json.dumps(c, default=str)), nontrivial=True)
+        try:
+            r = run_options_case(c)
+        except Exception as e:
+            r = ("options-dict|raises:" + type(e).__name__, "assigning option dictionaries "
+                 "raises %s: %s" % (type(e).__name__, str(e)[:80]))
+        if r is None:
+            stats["ok"] += 1
+        else:
+            stats["violations"] += 1
+            ctx.violation(SITE_OPT, r[0], r[1], {"kind": "optdict", "case": c})
+    ctx.cov["options_dict_histories"] = stats
+
+
 # ---------------- special earlier states, long spans, larger krylov systems
 def jc_system(N, g2):
     """Jaynes-Cummings model (excitation number conserved), coupling g2/2"""
@@ -1557,6 +1797,8 @@ def run(ctx):
     real_propagator_part(ctx, rng)
     rk_part(ctx, rng)
     solver_reuse_part(ctx, rng)
+    interleave_part(ctx, rng)
+    options_assign_part(ctx, rng)
     special_state_part(ctx, rng)
     krylov_part(ctx, rng)
     zvode_part(ctx, rng)
@@ -1586,6 +1828,21 @@ def replay(ctx, payload):
         r = run_reuse_case(d["spec"], hist, pr, inter)
         if r is not None and r[0] != "skip":
             ctx.violation(r[0], r[1], r[2], d)
+    elif kind == "interleave":
+        ops = [tuple(tuple(x) if isinstance(x, list) else x for x in o) for o in d["ops"]]
+        suffix, wj = il_reference_suffix(ops)
+        ref = il_exec(d["spec"], mk_solver(d["spec"], w=wj), suffix)
+        got = il_exec(d["spec"], mk_solver(d["spec"], w=1), ops)
+        bit, worst = same_states(got, ref)
+        if not bit:
+            ctx.violation(payload["site"], payload["signature"],
+                          "interleaved history differs by %.3g from a new solver" % worst, d)
+    elif kind == "optdict":
+        c = d["case"]
+        c["assign"] = [(a[0], a[1]) for a in c["assign"]]
+        r = run_options_case(c)
+        if r is not None:
+            ctx.violation(payload["site"], r[0], r[1], d)
     elif kind == "special":
         r = run_special_case(d["case"])
         if r is not None and r[0] not in ("skip", "within"):
